@@ -399,6 +399,162 @@ pub fn s_conn(cx: &mut Ctx) {
         }
         cx.end();
     }
+    // n-ary folds of every length 0..=64 in which every operand matters: the conjunction of `len`
+    // distinct complemented minterms / the disjunction of `len` distinct minterms over 6 variables
+    let reps = if cx.thorough { 6 } else { 1 };
+    for _ in 0..reps {
+        cx_begin!(cx, 6, "new 12 5 6".into(), 64);
+        for v in 1..=6 {
+            cx_op!(cx, format!("var {}", v));
+        }
+        let mut mt = vec![];
+        let mut nmt = vec![];
+        for m in 0..64u32 {
+            let lits: Vec<String> = (1..=6).map(|v| if (m >> (v - 1)) & 1 == 1 { v.to_string() } else { format!("-{}", v) }).collect();
+            let h = cx_op!(cx, format!("cube {}", lits.join(" ")));
+            mt.push(h);
+            nmt.push(cx_op!(cx, format!("not {}", h)));
+        }
+        for len in 0..=64usize {
+            let mut perm: Vec<usize> = (0..64).collect();
+            for i in (1..64).rev() {
+                let j = cx.rng.below(i as u64 + 1) as usize;
+                perm.swap(i, j);
+            }
+            let a: Vec<String> = perm[..len].iter().map(|&i| nmt[i].to_string()).collect();
+            let o: Vec<String> = perm[..len].iter().map(|&i| mt[i].to_string()).collect();
+            cx_op!(cx, format!("andmany {}", a.join(" ")));
+            cx_op!(cx, format!("ormany {}", o.join(" ")));
+        }
+        cx.end();
+    }
+}
+
+/// the table over six variables of the function with table `t` over the variables `sub` (ascending)
+fn expand(t: u64, sub: &[u32]) -> u64 {
+    let mut r = 0u64;
+    for e in 0..64u64 {
+        let mut i = 0;
+        for (k, &v) in sub.iter().enumerate() {
+            i |= ((e >> (v - 1)) & 1) << k;
+        }
+        if (t >> i) & 1 == 1 {
+            r |= 1 << e;
+        }
+    }
+    r
+}
+
+/// C09 C10 C11 C02: arguments with interleaved supports. Six variables are split between the arguments
+/// (3 + 3 for the binary operations and compose, 2 + 2 + 2 for ITE) in every possible way, and ALL
+/// functions over each part are combined: every order relationship between the arguments' variables
+/// (an argument's top variable above, between or below the other's) occurs with every pair of shapes
+pub fn s_split(cx: &mut Ctx) {
+    // 3 + 3
+    let mut parts: Vec<Vec<u32>> = vec![];
+    for m in 0..64u32 {
+        if m.count_ones() == 3 {
+            parts.push((1..=6).filter(|v| (m >> (v - 1)) & 1 == 1).collect());
+        }
+    }
+    let nparts = if cx.thorough { parts.len() } else { 5 };
+    for pi in 0..nparts {
+        let s_f = if cx.thorough { parts[pi].clone() } else { parts[cx.rng.below(parts.len() as u64) as usize].clone() };
+        let s_g: Vec<u32> = (1..=6).filter(|v| !s_f.contains(v)).collect();
+        cx_begin!(cx, 6, format!("new 14 {} {}", 3 + pi % 4, 4 + pi % 6), 256);
+        let mut memo = HashMap::new();
+        let fs: Vec<usize> = (0..256u64).map(|t| build(cx, &mut memo, expand(t, &s_f))).collect();
+        let gs: Vec<usize> = (0..256u64).map(|t| build(cx, &mut memo, expand(t, &s_g))).collect();
+        let (sf, sg) = if cx.thorough { (1, 1) } else { (5, 7) };
+        let mut k = 0u64;
+        for f in ((pi % sf)..256).step_by(sf) {
+            for g in ((f % sg)..256).step_by(sg) {
+                for &v in &s_f {
+                    cx_op!(cx, format!("compose {} {} {}", fs[f], v, gs[g]));
+                }
+                cx_op!(cx, format!("compose {} {} {}", gs[g], s_g[f % 3], fs[f]));
+                cx_op!(cx, format!("constrain {} {}", fs[f], gs[g]));
+                cx_op!(cx, format!("restrict {} {}", fs[f], gs[g]));
+                k += 1;
+                if k % 512 == 0 {
+                    cx.op("digest".into());
+                }
+                if k % 4096 == 0 {
+                    // keep the table small: only the argument functions survive
+                    let roots: Vec<String> = fs.iter().chain(gs.iter()).map(|h| h.to_string()).collect();
+                    cx_op!(cx, format!("gc {}", roots.join(" ")));
+                }
+            }
+        }
+        cx.end();
+        if pi == 0 {
+            cx.notes.push(format!("first 3+3 split: f over {:?}, g over {:?}", s_f, s_g));
+        }
+    }
+    // every query first: sizes of all functions are memoised before the operations run (and again in
+    // between), so an operation that consults a query cache finds it full
+    for (oi, op) in ["restrict", "constrain", "compose", "and", "xor"].iter().enumerate() {
+        cx_begin!(cx, 3, format!("new 11 {} {}", 2 + oi % 3, 5 + oi % 3), 256);
+        let hs = build_all3(cx);
+        for &h in &hs {
+            cx_op!(cx, format!("size {}", h));
+        }
+        let (sf, sg) = if cx.thorough { (1, 1) } else { (3, 5) };
+        let mut k = 0u64;
+        for f in ((oi % sf)..256).step_by(sf) {
+            for g in ((f % sg)..256).step_by(sg) {
+                let r = if *op == "compose" {
+                    cx_op!(cx, format!("compose {} {} {}", hs[f], 1 + (f + g) % 3, hs[g]))
+                } else {
+                    cx_op!(cx, format!("{} {} {}", op, hs[f], hs[g]))
+                };
+                k += 1;
+                if k % 7 == 0 {
+                    cx_op!(cx, format!("size {}", r));
+                }
+                if k % 1024 == 0 {
+                    cx.op("digest".into());
+                }
+            }
+        }
+        cx.end();
+    }
+    // 2 + 2 + 2 for ITE
+    let mut parts3: Vec<(Vec<u32>, Vec<u32>, Vec<u32>)> = vec![];
+    for a in 0..64u32 {
+        if a.count_ones() != 2 {
+            continue;
+        }
+        for b in 0..64u32 {
+            if b.count_ones() != 2 || a & b != 0 {
+                continue;
+            }
+            let c = 63 & !(a | b);
+            let set = |m: u32| -> Vec<u32> { (1..=6).filter(|v| (m >> (v - 1)) & 1 == 1).collect() };
+            parts3.push((set(a), set(b), set(c)));
+        }
+    }
+    let n3 = if cx.thorough { parts3.len() } else { 6 };
+    for pi in 0..n3 {
+        let p = if cx.thorough { parts3[pi].clone() } else { parts3[cx.rng.below(parts3.len() as u64) as usize].clone() };
+        cx_begin!(cx, 6, format!("new 13 {} {}", 2 + pi % 4, 3 + pi % 5), 256);
+        let mut memo = HashMap::new();
+        let fs: Vec<usize> = (0..16u64).map(|t| build(cx, &mut memo, expand(t, &p.0))).collect();
+        let gs: Vec<usize> = (0..16u64).map(|t| build(cx, &mut memo, expand(t, &p.1))).collect();
+        let hs: Vec<usize> = (0..16u64).map(|t| build(cx, &mut memo, expand(t, &p.2))).collect();
+        for f in 0..16 {
+            for g in 0..16 {
+                for h in 0..16 {
+                    cx_op!(cx, format!("ite {} {} {}", fs[f], gs[g], hs[h]));
+                    if (f + g + h) % 4 == 0 {
+                        cx_op!(cx, format!("itec {} {} {}", fs[f], gs[g], hs[h]));
+                    }
+                }
+            }
+            cx.op("digest".into());
+        }
+        cx.end();
+    }
 }
 
 /// random histories mixing every operation with collections — C01, C04, C05, C06, C07, C17 …
@@ -992,11 +1148,11 @@ pub fn s_wide(cx: &mut Ctx) {
             for i in (0..k - 1).rev() {
                 c3 = cx_op!(cx, format!("and {} {}", lit_h(lits[i]), c3));
             }
-            same(cx, c1, c2, &["C15", "C03"], "cube vs apply_and_many of its literals");
-            same(cx, c1, c3, &["C15", "C03"], "cube vs iterated apply_and");
+            same(cx, c1, c2, &["C15", "C03", "C01"], "cube vs apply_and_many of its literals");
+            same(cx, c1, c3, &["C15", "C03", "C01"], "cube vs iterated apply_and");
             let d1 = cx_op!(cx, format!("clause {}", shuffled.join(" ")));
             let d2 = cx_op!(cx, format!("ormany {}", hs.join(" ")));
-            same(cx, d1, d2, &["C15", "C03"], "clause vs apply_or_many of its literals");
+            same(cx, d1, d2, &["C15", "C03", "C01"], "clause vs apply_or_many of its literals");
             cx_op!(cx, format!("satcount {} {}", c1, n));
             cx_op!(cx, format!("satcount {} {}", d1, n + 3));
             cx_op!(cx, format!("onesat {}", c1));
@@ -1053,6 +1209,93 @@ pub fn s_wide(cx: &mut Ctx) {
             cx.notes.push("list lengths 32, 33, 34, 63, 64, 65, 100, 128, 129 over 40–200 variables".into());
         }
     }
+}
+
+/// chain-shaped diagrams of every "round" depth: cubes, clauses and parity chains of L variables for
+/// L at and around powers of two, powers of ten and multiples of 100 up to 1300 (plus every L up to 40),
+/// with random signs: counting with n = L, L+1 and more, one_sat, paths, size, exports
+pub fn s_deep(cx: &mut Ctx) {
+    let mut lens: Vec<usize> = (1..=40).collect();
+    for k in 5..=10 {
+        lens.extend([(1usize << k) - 1, 1 << k, (1 << k) + 1]);
+    }
+    for j in 1..=13 {
+        lens.extend([100 * j - 1, 100 * j, 100 * j + 1]);
+    }
+    lens.extend([255, 256, 257, 1023, 1024, 1025, 1299, 1300]);
+    lens.sort();
+    lens.dedup();
+    let maxl = 1302usize;
+    let reps = if cx.thorough { 4 } else { 1 };
+    for rep in 0..reps {
+        cx.ex.begin_case();
+        cx.ex.tt = None;
+        cx.ex.scan_every = 1_000_000_000;
+        cx_op!(cx, format!("new {} {} {}", 18, 10 + rep, 10 + rep));
+        let mut v = vec![0usize];
+        for i in 1..=maxl {
+            v.push(cx_op!(cx, format!("var {}", i)));
+        }
+        for (li, &l) in lens.iter().enumerate() {
+            // variables 1..=l or a random ascending selection of l variables out of 1..=1300
+            let vars: Vec<usize> = if li % 3 == 0 && l < 1000 {
+                let mut pool: Vec<usize> = (1..=1300).collect();
+                for i in (1..pool.len()).rev() {
+                    let j = cx.rng.below(i as u64 + 1) as usize;
+                    pool.swap(i, j);
+                }
+                let mut s: Vec<usize> = pool[..l].to_vec();
+                s.sort();
+                s
+            } else {
+                (1..=l).collect()
+            };
+            let top = *vars.last().unwrap();
+            let signs: Vec<bool> = (0..l).map(|i| match (li + rep) % 4 { 0 => true, 1 => i + 1 != l, 2 => cx.rng.chance(1, 2), _ => cx.rng.chance(7, 8) }).collect();
+            let lits: Vec<String> = (0..l).map(|i| if signs[i] { vars[i].to_string() } else { format!("-{}", vars[i]) }).collect();
+            let c = cx_op!(cx, format!("cube {}", lits.join(" ")));
+            let d = cx_op!(cx, format!("clause {}", lits.join(" ")));
+            for &f in &[c, d] {
+                cx_op!(cx, format!("satcount {} {}", f, top));
+                cx_op!(cx, format!("satcount {} {}", f, top + 1));
+                cx_op!(cx, format!("satcount {} {}", f, maxl + 7));
+                cx_op!(cx, format!("onesat {}", f));
+                cx_op!(cx, format!("size {}", f));
+            }
+            cx_op!(cx, format!("paths {}", c));
+            if l <= 130 {
+                cx_op!(cx, format!("paths {}", d));
+            }
+            let nc = cx_op!(cx, format!("not {}", c));
+            cx_op!(cx, format!("satcount {} {}", nc, top));
+            cx_op!(cx, format!("onesat {}", nc));
+            if l <= 130 {
+                cx_op!(cx, format!("paths {}", nc));
+            }
+            if l <= 300 {
+                cx_op!(cx, format!("bracket {}", c));
+                cx_op!(cx, format!("dot {}", c));
+            }
+            // a parity chain (two nodes per level but one, both polarities of every sub-function)
+            if l <= 257 || l % 100 == 0 {
+                let mut x = v[vars[l - 1]];
+                for i in (0..l - 1).rev() {
+                    x = cx_op!(cx, format!("xor {} {}", v[vars[i]], x));
+                }
+                cx_op!(cx, format!("satcount {} {}", x, top));
+                cx_op!(cx, format!("satcount {} {}", x, top + 2));
+                cx_op!(cx, format!("onesat {}", x));
+                cx_op!(cx, format!("size {}", x));
+            }
+            if li % 16 == 15 {
+                let roots: Vec<String> = v[1..].iter().map(|h| h.to_string()).collect();
+                cx_op!(cx, format!("gc {}", roots.join(" ")));
+                cx.op("digest".into());
+            }
+        }
+        cx.end();
+    }
+    cx.notes.push(format!("{} chain lengths up to 1300", lens.len()));
 }
 
 /// boundary values of the variable type (`u32`; literals are `i32`)
@@ -2015,7 +2258,16 @@ pub fn s_raw(cx: &mut Ctx, dbg: bool) {
                     cx.op("raw.len".into());
                 }
                 17 => {
-                    cx_op!(cx, format!("raw.reserve {}", cx.rng.below(6)));
+                    if cx.rng.chance(1, 4) {
+                        // a request whose byte size exceeds isize::MAX: `Vec::with_capacity` panics
+                        // ("capacity overflow") before anything is touched; the table must stay usable
+                        let n = (1u64 << (59 + cx.rng.below(4))) + cx.rng.below(1000);
+                        cx_op!(cx, format!("raw.reserve {}", n.min((1 << 62) + 999)));
+                        cx_op!(cx, format!("raw.get {}", k));
+                        cx.op("raw.len".into());
+                    } else {
+                        cx_op!(cx, format!("raw.reserve {}", cx.rng.below(6)));
+                    }
                 }
                 18 => {
                     if cx.rng.chance(1, 4) {
@@ -2492,6 +2744,8 @@ pub fn run_suite(name: &str, cx: &mut Ctx) -> bool {
         "export" => s_export(cx),
         "table" => s_table(cx),
         "hugevar" => s_hugevar(cx),
+        "deep" => s_deep(cx),
+        "split" => s_split(cx),
         "wide" => s_wide(cx),
         "huge" => s_huge(cx),
         "tnode" => s_tnode(cx),
@@ -2507,5 +2761,5 @@ pub fn run_suite(name: &str, cx: &mut Ctx) -> bool {
 }
 
 pub const ALL_SUITES: &[&str] = &[
-    "mk", "ite3", "conn", "hist", "gc_chain", "gc_reuse", "big", "soak", "memo", "subst", "compose", "constrain", "restrict", "itec", "count", "export", "table", "cache", "cacherep", "kcache", "raw", "eda", "hugevar", "gcwrap", "tnode", "huge", "wide",
+    "mk", "ite3", "conn", "hist", "gc_chain", "gc_reuse", "big", "soak", "memo", "subst", "compose", "constrain", "restrict", "itec", "count", "export", "table", "cache", "cacherep", "kcache", "raw", "eda", "hugevar", "gcwrap", "tnode", "huge", "wide", "split", "deep",
 ];
